@@ -13,7 +13,7 @@ META = {
             "a let/use statement the initialiser is visited in the old scope before the new scope is allocated, the binders go into the "
             "new scope, and later statements see it; S4 name lookup walks expression scopes innermost-first, then module values, then "
             "built-ins; the module scope puts functions/constants/variants into values, types/aliases into types, and imports only "
-            "public declarations. One obligation per variant / call site.",
+            "public declarations. One obligation per variant / call site. S6-S8 qualified values, import namespaces (see DESIGN). S9 no castable node consists of exactly one node of its own kind (lib/shape.py: children of every finish_node site), so AstPtr = (kind, range) identifies a binder; S10 a NameRef under MODULE_NAME_REF is resolved as a module before the value namespace is tried; S11 the pattern of a let / use statement is lowered whatever its right-hand side is.",
     "explanation": "Decides the construction shape that Gleam's scoping rules require (innermost binder wins, a let binder is not visible "
                    "in its own initialiser, clause/lambda/use bindings do not escape, values and types are separate namespaces). That "
                    "the classifier maps every syntactic position to the right lookup is behavioural and not decided.",
@@ -283,7 +283,11 @@ def run(F, res, tier):
             where = f.loc(t["ln"])
             in_closure = f.kind == "Closure"
             # which construct are we in? clause closure or lambda arm allocate; everything else passes the parameter
-            if cls == "param":
+            if cls == "param" and c == SC + "add_bindings":
+                # traverse_expr never binds into the scope it was given: binders of a clause / lambda go into the fresh
+                # scope of that clause / lambda (else a parameter escapes into the enclosing scope)
+                ok, why = False, "binds patterns into the scope traverse_expr was called with, not into a fresh one"
+            elif cls == "param":
                 ok, why = True, "passes its own scope"
             elif cls == "fresh(parent=param)":
                 ok, why = True, "fresh scope whose parent is the current scope (clause body / lambda body and their binders)"
@@ -367,6 +371,11 @@ def run(F, res, tier):
     qualifier_first(F, res)
     qualified_value_kinds(F, res)
     namespaces(F, res)
+    # ---- S9: a binder is found through the source map keyed by AstPtr = (kind, range)
+    from rules import c06 as _c06
+    _c06.node_identity_rules(F, res, "S9")
+    module_qualifier_contexts(F, res)
+    binders_independent_of_initialiser(F, res)
     # ---- S4
     rn = F.fn("ide::def::resolver::Resolver::resolve_name")
     names = [(b, FL.short(callee(t) or callee_def(t))) for b, t in rn.calls()]
@@ -765,3 +774,119 @@ def namespaces(F, res):
                    (which, "was" if which == "types" else "was not"), need in flag, where=fn.loc(t["ln"]),
                    how="boolean gates on this insert: %s" % flag)
     res.floor("inserts into the module scope's values/types", n, 7)
+
+
+def module_qualifier_contexts(F, res, rule="S10"):
+    """S10: a NameRef that stands in a module-qualifier node (MODULE_NAME_REF, the `m` of the pattern `m.Variant(..)`) names a module.
+    Semantics::resolve_nameref must decide that before it falls through to the value namespace, where a local or a function of the
+    same spelling would capture it (rename of the local then rewrites the qualifier)."""
+    from lib import shape
+    from lib.facts import op_place
+    R = shape.results(F)
+    produced = [s for s in R["finish_sites"] if s.endswith("|MODULE_NAME_REF")]
+    res.floor("parser sites that build a MODULE_NAME_REF around a NAME_REF (the context exists)", len(produced), 1)
+    f0 = F.fn("ide::def::semantics::Semantics::resolve_nameref")
+    f = f0
+    d = FL.Defs(f)
+    casts = []
+    for b, t in f.calls():
+        targs = (t.get("fn") or {}).get("targs") or []
+        c = callee(t) or callee_def(t) or ""
+        if FL.short(c) in ("Option::and_then", "Option::map", "Option::filter", "Option::is_some_and") and len(targs) > 1 and \
+                any(x == "syntax::ast::ModuleNameRef" or "<syntax::ast::ModuleNameRef as rowan::ast::AstNode>" in x for x in targs):
+            casts.append((b, t))
+        if "<syntax::ast::ModuleNameRef as rowan::ast::AstNode>::cast" in c or "<syntax::ast::ModuleNameRef as rowan::ast::AstNode>::can_cast" in c:
+            casts.append((b, t))
+    falls = []
+    for b, t in f.calls():
+        if (callee(t) or "") == "ide::def::resolver::Resolver::resolve_name":
+            dep = FL.depends(F, f, d, t["args"][0])
+            if "resolver::resolver_for_toplevel" not in dep["calls"] and "resolver_for_toplevel" not in " ".join(dep["calls"]):
+                falls.append((b, t))
+
+    def reaches(op, target):
+        seen, st = set(), [op]
+        while st and len(seen) < 200:
+            o = st.pop()
+            pl = op_place(o) if isinstance(o, dict) else None
+            if pl is None or pl["l"] in seen:
+                continue
+            seen.add(pl["l"])
+            if pl["l"] == target:
+                return True
+            for dd in d.defs.get(pl["l"], []):
+                if dd[2] == "call":
+                    st.extend(dd[3]["args"])
+                else:
+                    rv = dd[3]["rv"]
+                    for key in ("op", "a", "b"):
+                        if isinstance(rv.get(key), dict):
+                            st.append(rv[key])
+                    if "place" in rv:
+                        st.append({"cp": rv["place"]})
+                    st.extend(rv.get("ops", []) or [])
+        return False
+    ok = bool(casts) and bool(falls)
+    why = []
+    for b, t in falls:
+        gs = FL.gates(F, f, [b], d)
+        hit = False
+        for g in gs:
+            neg = g["allowed"] in ([False], ["None"]) and not (g.get("callee") or "").endswith("is_none") or \
+                (g.get("callee") or "").endswith("is_none") and g["allowed"] == [True]
+            if not neg:
+                continue
+            ops = [g["call_t"]["args"][0]] if g.get("call_t") else ([g["op"]] if g.get("op") else [])
+            if g.get("call_t") and any(g["call_bb"] == cb for cb, _ in casts if "call_bb" in g):
+                hit = True
+            for o in ops:
+                if any(reaches(o, ct["dest"]["l"]) for _, ct in casts):
+                    hit = True
+        if not hit:
+            ok = False
+            why.append("value lookup at line %d is reachable with a ModuleNameRef parent" % t["ln"])
+    res.ob(rule, "name-ref/module-qualifier-before-values", "a NameRef whose parent is a MODULE_NAME_REF is resolved as a module; the value-namespace "
+           "lookup of resolve_nameref is reached only when the parent is not such a node", ok, where=f0.loc(),
+           how="casts of the parent to ModuleNameRef: %d; fall-through value lookups: %d; %s" % (len(casts), len(falls), "; ".join(why) or "each gated by the cast failing"))
+
+
+def binders_independent_of_initialiser(F, res, rule="S11"):
+    """S11: the names a `let` / `use` statement binds are in scope for the rest of the block whatever stands on the right-hand side
+    (`let a = todo`, `let a = panic`, a value still being typed are not `ast::Expr` nodes: StmtLet::body() is None for them)"""
+    f = F.fn("ide::def::body::BodyLowerCtx::lower_expr_stmt")
+    d = FL.Defs(f)
+    INIT = {"StmtLet::body": "let", "StmtUse::expr": "use"}
+    sites = [(b, t) for b, t in f.calls() if FL.short(callee(t) or callee_def(t) or "") == "BodyLowerCtx::lower_pattern"]
+    # a lowering inside a closure (`.map(|p| self.lower_pattern(p))`) runs under the conditions of the place that builds the closure
+    for cp in F.closures_of(f.path):
+        for b2, t2 in F.fns[cp].calls():
+            if FL.short(callee(t2) or callee_def(t2) or "") == "BodyLowerCtx::lower_pattern":
+                for b, i, s in f.stmts():
+                    rv = s.get("rv")
+                    if rv and rv["k"] == "agg" and rv.get("closure") == cp:
+                        sites.append((b, dict(t2, ln=s["ln"])))
+    res.floor("pattern lowerings in lower_expr_stmt", len(sites), 2)
+
+    def sources(g):
+        o = g.get("origin") or {}
+        ops = []
+        if o.get("k") == "field" and o["base"].get("k") == "agg" and o["base"]["rv"].get("agg") == "tuple":
+            idx = [e["f"] for e in o["proj"] if isinstance(e, dict) and "f" in e]
+            if idx and idx[0] < len(o["base"]["rv"]["ops"]):
+                ops = [o["base"]["rv"]["ops"][idx[0]]]
+        calls = set()
+        if g.get("callee"):
+            calls.add(FL.short(g["callee"]))
+            ops += list(g["call_t"]["args"])
+        for op in ops:
+            calls |= FL.depends(F, f, d, op)["calls"]
+        return calls
+    for n, (b, t) in enumerate(sites):
+        bad = []
+        for g in FL.gates(F, f, [b], d):
+            hit = sources(g) & set(INIT)
+            if hit and g["allowed"] in (["Some"], [True]):
+                bad += sorted(hit)
+        res.ob(rule, "binders-lowered-without-initialiser/%d" % n, "the pattern of a let / use statement is lowered (its names bound for the following "
+               "statements) on every path, not only when the right-hand side is an expression node", not bad, where=f.loc(t["ln"]),
+               how="lowering of the pattern is conditional on %s being Some" % bad if bad else "no condition on the initialiser")
